@@ -187,6 +187,12 @@ def worker_main(argv: list[str]) -> int:
     digests = set()
     seen_sig: set[str] = set()
     gc.disable()
+    # warm-up (discarded): the first execution of some code objects in an interpreter emits
+    # a different number of line events (CPython 3.12), which would shift line-level decisions
+    try:
+        check.run_plan(check.gen_plan(seed, widx, tier))
+    except Exception:
+        pass
     run = widx
     while time.time() < deadline and (max_runs is None or out["runs"] < max_runs):
         plan = check.gen_plan(seed, run, tier)
@@ -384,6 +390,10 @@ def write_evidence(check: Any, cid: str, tier: str, seed: int, wall: float, agg:
 def replay(path: str) -> int:
     data = json.load(open(path))
     check = load_check(data["property"])
+    try:
+        check.run_plan(data["plan"])  # warm-up, see worker_main
+    except Exception:
+        pass
     res = check.run_plan(data["plan"])
     print("replay %s: status=%s signature=%s" % (path, res["status"], res.get("signature")))
     if res.get("detail"):
